@@ -64,9 +64,33 @@ impl PrimalSimplex {
         // Phase I: Find initial feasible basis
         lp_debug!("SIMPLEX: Starting Phase I...");
         let phase1_start = std::time::Instant::now();
-        let (mut basis, phase1_iterations) = self.phase_one(&a_eq, &b_eq, start_time)?;
+        let (basis, phase1_iterations) = self.phase_one(&a_eq, &b_eq, start_time)?;
         let phase1_time_ms = phase1_start.elapsed().as_secs_f64() * 1000.0;
         lp_debug!("SIMPLEX: Phase I completed in {:.2}ms with {} iterations", phase1_time_ms, phase1_iterations);
+        
+        // Phase I ended with a positive sum of artificial variables: no point satisfies
+        // Ax <= b, l <= x <= u. There is no meaningful point, objective or basis to report.
+        let mut basis = match basis {
+            Some(basis) => basis,
+            None => {
+                let mut solution = LpSolution::new(
+                    LpStatus::Infeasible,
+                    0.0,
+                    vec![0.0; problem.n_vars],
+                    phase1_iterations,
+                    Vec::new(),
+                );
+                solution.stats.solve_time_ms = phase1_time_ms;
+                solution.stats.phase1_time_ms = phase1_time_ms;
+                solution.stats.phase1_iterations = phase1_iterations;
+                solution.stats.phase1_needed = true;
+                solution.stats.n_variables = problem.n_vars;
+                solution.stats.n_constraints = problem.n_constraints;
+                solution.stats.peak_memory_mb = a_eq.memory_bytes() as f64 / (1024.0 * 1024.0);
+                solution.stats.factorizations = phase1_iterations;
+                return Ok(solution);
+            }
+        };
         
         // Phase II: Optimize from feasible basis
         // Note: Pass problem.n_vars (original variable count) so solution extraction works correctly
@@ -180,8 +204,9 @@ impl PrimalSimplex {
     /// Phase I: Find initial feasible basis using artificial variables
     ///
     /// Solves auxiliary problem: minimize sum of artificial variables
-    /// Returns (feasible basis, phase1_iterations) if one exists
-    fn phase_one(&mut self, a: &Matrix, b: &[f64], start_time: std::time::Instant) -> Result<(Basis, usize), LpError> {
+    /// Returns (Some(feasible basis), phase1_iterations) if one exists and
+    /// (None, phase1_iterations) if the problem is infeasible
+    fn phase_one(&mut self, a: &Matrix, b: &[f64], start_time: std::time::Instant) -> Result<(Option<Basis>, usize), LpError> {
         let m = a.rows;
         let n = a.cols;
         lp_debug!("SIMPLEX Phase I: m={}, n={}", m, n);
@@ -200,7 +225,7 @@ impl PrimalSimplex {
         
         if basis.is_primal_feasible(&x, self.config.feasibility_tol) {
             lp_debug!("SIMPLEX Phase I: Initial basis is feasible, skipping Phase I");
-            return Ok((basis, 0)); // No Phase I iterations needed
+            return Ok((Some(basis), 0)); // No Phase I iterations needed
         }
         lp_debug!("SIMPLEX Phase I: Initial basis not feasible, creating augmented problem...");
         
@@ -307,12 +332,14 @@ impl PrimalSimplex {
             if phase1_iterations == 0 {
                 lp_debug!("SIMPLEX Phase I: Starting filter+min_by search");
             }
+            // reduced_costs[k] belongs to variable nonbasic[k], so map the position back
+            // to the variable index before using it as a column of the matrix
             let entering = if let Some(idx) = reduced_costs
                 .iter()
                 .enumerate()
                 .filter(|(_, rc)| **rc < -self.config.optimality_tol)
                 .min_by(|(_, a), (_, b)| a.partial_cmp(b).unwrap())
-                .map(|(idx, _)| idx)
+                .map(|(idx, _)| phase1_basis.nonbasic[idx])
             {
                 if phase1_iterations == 0 {
                     lp_debug!("SIMPLEX Phase I: Found entering variable: {}", idx);
@@ -326,67 +353,21 @@ impl PrimalSimplex {
                 lp_debug!("SIMPLEX Phase I: No improving direction, obj={}, feasibility_tol={}", 
                           obj, self.config.feasibility_tol);
                 
-                if obj < self.config.feasibility_tol {
-                    // Found feasible solution for original problem
-                    // Extract basis that doesn't use artificial variables
-                    // (or uses them at zero level)
-                    
-                    // Build basis for original problem by removing artificial variables
-                    let original_basic: Vec<usize> = phase1_basis.basic
-                        .iter()
-                        .filter(|&&idx| idx < n)
-                        .copied()
-                        .collect();
-                    
-                    if original_basic.len() == m {
-                        // All basic variables are from original problem
-                        let original_nonbasic: Vec<usize> = (0..n)
-                            .filter(|idx| !original_basic.contains(idx))
-                            .collect();
-                        
-                        let mut final_basis = Basis::from_indices(original_basic, original_nonbasic);
-                        final_basis.factorize(a, &self.config)?;
-                        return Ok((final_basis, phase1_iterations));
-                    } else {
-                        // Some artificial variables are basic at zero level
-                        // Need to pivot them out (this is a degenerate case)
-                        // For now, try to use first n columns as basis
-                        let mut final_basic: Vec<usize> = phase1_basis.basic
-                            .iter()
-                            .filter(|&&idx| idx < n)
-                            .copied()
-                            .collect();
-                        
-                        // Fill remaining slots with non-basic original variables
-                        for idx in 0..n {
-                            if final_basic.len() >= m {
-                                break;
-                            }
-                            if !final_basic.contains(&idx) {
-                                final_basic.push(idx);
-                            }
-                        }
-                        
-                        if final_basic.len() == m {
-                            let final_nonbasic: Vec<usize> = (0..n)
-                                .filter(|idx| !final_basic.contains(idx))
-                                .collect();
-                            
-                            let mut final_basis = Basis::from_indices(final_basic, final_nonbasic);
-                            // Try to factorize - if this fails, the basis is singular
-                            if final_basis.factorize(a, &self.config).is_ok() {
-                                return Ok((final_basis, phase1_iterations));
-                            }
-                        }
-                        
-                        // Could not construct a valid basis
-                        lp_debug!("SIMPLEX Phase I: ERROR - Could not construct valid basis from Phase I");
-                        return Err(LpError::NumericalInstability);
-                    }
-                } else {
-                    // Phase I objective >= feasibility_tol means original problem is infeasible
-                    lp_debug!("SIMPLEX Phase I: ERROR - Phase I objective {} >= feasibility_tol {}, problem is infeasible",
+                if obj.abs() < self.config.feasibility_tol {
+                    // Sum of artificial variables is zero: feasible solution for the
+                    // original problem. Artificial variables still basic (at zero level)
+                    // are pivoted out to obtain a basis of original columns only.
+                    let final_basis = self.extract_original_basis(phase1_basis, &a_augmented, a, &b_augmented)?;
+                    return Ok((Some(final_basis), phase1_iterations));
+                } else if obj > 0.0 {
+                    // Minimum of the artificial sum is positive: original problem is infeasible
+                    lp_debug!("SIMPLEX Phase I: Phase I objective {} >= feasibility_tol {}, problem is infeasible",
                               obj, self.config.feasibility_tol);
+                    return Ok((None, phase1_iterations));
+                } else {
+                    // A negative artificial sum means an artificial variable went negative,
+                    // which no sequence of valid pivots can produce
+                    lp_debug!("SIMPLEX Phase I: ERROR - Phase I objective {} is negative", obj);
                     return Err(LpError::NumericalInstability);
                 }
             };
@@ -406,8 +387,10 @@ impl PrimalSimplex {
                 lp_debug!("SIMPLEX Phase I: Solved for direction, getting basic solution");
             }
             
-            // Get current basic solution
-            let x_basic = phase1_basis.solve_basic(&b_augmented)?;
+            // Get current basic solution. solve_basic returns one value per variable;
+            // the ratio test needs one value per basis position (like `direction`).
+            let x = phase1_basis.solve_basic(&b_augmented)?;
+            let x_basic: Vec<f64> = phase1_basis.basic.iter().map(|&idx| x[idx]).collect();
             if phase1_iterations == 0 {
                 lp_debug!("SIMPLEX Phase I: Got basic solution, finding leaving variable");
             }
@@ -480,7 +463,7 @@ impl PrimalSimplex {
             let x_basic_check = phase1_basis.solve_basic(&b_augmented)?;
             let obj_check = phase1_basis.objective_value(&x_basic_check, &c_phase1);
             
-            if obj_check < self.config.feasibility_tol {
+            if obj_check.abs() < self.config.feasibility_tol {
                 lp_debug!("SIMPLEX Phase I: Feasible solution found at iteration {} (obj={})", 
                           phase1_iterations, obj_check);
                 
@@ -498,7 +481,7 @@ impl PrimalSimplex {
                     
                     let mut final_basis = Basis::from_indices(original_basic, original_nonbasic);
                     final_basis.factorize(a, &self.config)?;
-                    return Ok((final_basis, phase1_iterations));
+                    return Ok((Some(final_basis), phase1_iterations));
                 }
             }
             
@@ -515,6 +498,65 @@ impl PrimalSimplex {
         // Max iterations reached
         lp_debug!("SIMPLEX Phase I: ERROR - Max iterations ({}) reached without finding solution", max_iter);
         Err(LpError::NumericalInstability)
+    }
+    
+    /// Turn the final Phase I basis into a basis of the original problem
+    ///
+    /// Every artificial variable that is still basic (necessarily at zero level) is
+    /// exchanged with a non-basic original column that has a non-zero entry in its row of
+    /// B^(-1) A. The basic solution does not move in such a degenerate pivot, so the basis
+    /// stays primal feasible. A column always exists because the standard form contains an
+    /// identity block (the slack columns) and therefore has full row rank.
+    fn extract_original_basis(
+        &self,
+        mut phase1_basis: Basis,
+        a_augmented: &Matrix,
+        a: &Matrix,
+        b_augmented: &[f64],
+    ) -> Result<Basis, LpError> {
+        let m = a.rows;
+        let n = a.cols;
+        
+        while let Some(pos) = phase1_basis.basic.iter().position(|&idx| idx >= n) {
+            // Row `pos` of B^(-1)
+            let mut unit = vec![0.0; m];
+            unit[pos] = 1.0;
+            let row = phase1_basis.lu.as_ref()
+                .ok_or(LpError::NumericalInstability)?
+                .solve_transpose(&unit)?;
+            
+            // Non-basic original column with the largest entry in that row of B^(-1) A
+            let mut best: Option<(usize, f64)> = None;
+            for (k, &j) in phase1_basis.nonbasic.iter().enumerate() {
+                if j >= n {
+                    continue;
+                }
+                let alpha: f64 = (0..m).map(|i| row[i] * a_augmented.get(i, j)).sum();
+                if alpha.abs() > self.config.feasibility_tol
+                    && best.map_or(true, |(_, best_alpha)| alpha.abs() > best_alpha)
+                {
+                    best = Some((k, alpha.abs()));
+                }
+            }
+            
+            let (entering_nonbasic_idx, _) = best.ok_or(LpError::NumericalInstability)?;
+            phase1_basis.swap(entering_nonbasic_idx, pos);
+            phase1_basis.factorize(a_augmented, &self.config)?;
+        }
+        
+        // The exchanges are degenerate, so the basis must still be primal feasible
+        let x = phase1_basis.solve_basic(b_augmented)?;
+        if !phase1_basis.is_primal_feasible(&x, self.config.feasibility_tol) {
+            return Err(LpError::NumericalInstability);
+        }
+        
+        let original_basic = phase1_basis.basic;
+        let original_nonbasic: Vec<usize> = (0..n)
+            .filter(|idx| !original_basic.contains(idx))
+            .collect();
+        let mut final_basis = Basis::from_indices(original_basic, original_nonbasic);
+        final_basis.factorize(a, &self.config)?;
+        Ok(final_basis)
     }
     
     /// Phase II: Optimize from feasible basis to optimal solution
